@@ -52,11 +52,12 @@ type run struct {
 	pos    int
 	alts   [][]choice
 
-	globals   map[*ssa.Global]*value
-	initState map[*ssa.Package]int
-	forceInit map[*ssa.Package]bool
-	lazyInits []string
-	inModel   map[string]bool
+	globals    map[*ssa.Global]*value
+	initState  map[*ssa.Package]int
+	forceInit  map[*ssa.Package]bool
+	initFailed map[*ssa.Package]string
+	lazyInits  []string
+	inModel    map[string]bool
 
 	nvars   int
 	nondets []nondetRec
@@ -378,25 +379,25 @@ func (e *engine) coveredGlobal(label string) bool {
 }
 
 type entryResult struct {
-	Entry        string     `json:"entry"`
-	Paths        int        `json:"paths"`
-	SymPaths     int        `json:"symbolic_paths"`
-	Obligations  int        `json:"obligations"`
-	Proved       int        `json:"proved"`
-	Violated     []obligRec `json:"violated"`
-	Unknown      []obligRec `json:"unknown"`
-	Inconclusive []string   `json:"inconclusive"`
-	Covers       []string   `json:"covers"`
-	Sat          int        `json:"sat"`
-	Unsat        int        `json:"unsat"`
-	UnknownQ     int        `json:"unknown_queries"`
-	SolverS      float64    `json:"solver_s"`
-	WallS        float64    `json:"wall_s"`
-	Samples      []obligRec `json:"samples"`
+	Entry        string         `json:"entry"`
+	Paths        int            `json:"paths"`
+	SymPaths     int            `json:"symbolic_paths"`
+	Obligations  int            `json:"obligations"`
+	Proved       int            `json:"proved"`
+	Violated     []obligRec     `json:"violated"`
+	Unknown      []obligRec     `json:"unknown"`
+	Inconclusive []string       `json:"inconclusive"`
+	Covers       []string       `json:"covers"`
+	Sat          int            `json:"sat"`
+	Unsat        int            `json:"unsat"`
+	UnknownQ     int            `json:"unknown_queries"`
+	SolverS      float64        `json:"solver_s"`
+	WallS        float64        `json:"wall_s"`
+	Samples      []obligRec     `json:"samples"`
 	ProvedLabels map[string]int `json:"proved_labels"`
-	Truncated    bool       `json:"truncated"`
-	Traces       []traceRec `json:"traces,omitempty"`
-	RaceQueries  int        `json:"race_queries,omitempty"`
+	Truncated    bool           `json:"truncated"`
+	Traces       []traceRec     `json:"traces,omitempty"`
+	RaceQueries  int            `json:"race_queries,omitempty"`
 }
 
 // explore runs all paths of one entry function.
@@ -557,23 +558,24 @@ func (r *run) stackString() string {
 func (e *engine) runPath(sol *Solver, entry *ssa.Function, args []value, prefix []choice) (r *run) {
 	r = &run{
 		eng: e, sol: sol, entry: entry.Name(),
-		prefix:    append([]choice{}, prefix...),
-		globals:   map[*ssa.Global]*value{},
-		initState: map[*ssa.Package]int{},
-		forceInit: map[*ssa.Package]bool{},
-		inModel:   map[string]bool{},
-		covers:    map[string]bool{},
-		notes:     map[string]bool{},
-		funcs:     map[*ssa.Function]bool{},
-		facts:     map[string]string{},
-		maxLen:    e.maxLen,
-		onceDone:  map[*value]bool{},
-		names:     map[*value]string{},
-		twins:     map[*Term]*Term{},
-		watch:     map[*value]string{},
-		watchMap:  map[*smap]string{},
-		syncIDs:   map[*value]int{},
-		held:      map[*value]int{},
+		prefix:     append([]choice{}, prefix...),
+		globals:    map[*ssa.Global]*value{},
+		initState:  map[*ssa.Package]int{},
+		forceInit:  map[*ssa.Package]bool{},
+		initFailed: map[*ssa.Package]string{},
+		inModel:    map[string]bool{},
+		covers:     map[string]bool{},
+		notes:      map[string]bool{},
+		funcs:      map[*ssa.Function]bool{},
+		facts:      map[string]string{},
+		maxLen:     e.maxLen,
+		onceDone:   map[*value]bool{},
+		names:      map[*value]string{},
+		twins:      map[*Term]*Term{},
+		watch:      map[*value]string{},
+		watchMap:   map[*smap]string{},
+		syncIDs:    map[*value]int{},
+		held:       map[*value]int{},
 	}
 	sol.BeginRun()
 	defer sol.EndRun()
